@@ -786,7 +786,9 @@ EGLPNUM_TYPENAME_QSLIB_INTERFACE EGLPNUM_TYPENAME_QSdata *EGLPNUM_TYPENAME_QScop
 
 	if (p->qslp->intmarker != 0)
 	{
-		ILL_SAFE_MALLOC (p2->qslp->intmarker, p->qslp->nstruct, char);
+		/* like structmap and colnames, intmarker has structsize entries:
+		 * ILLlib_addcol writes intmarker[nstruct] whenever nstruct < structsize */
+		ILL_SAFE_MALLOC (p2->qslp->intmarker, p2->qslp->structsize, char);
 
 		for (j = 0; j < p->qslp->nstruct; j++)
 		{
